@@ -1,6 +1,7 @@
 import Codec.Parse
 import Codec.Codec
 import Codec.Utf8
+import Codec.Utf8All
 import Codec.Leaf
 import Codec.Bridge
 import Codec.Decide
